@@ -77,6 +77,9 @@ func (l *DefaultListener) updateLimit(endTime int64, current measurements.Immuta
 		l.limiter.mu.Lock()
 		defer l.limiter.mu.Unlock()
 		if endTime > l.limiter.nextUpdateTime {
+			// close the window as it is now: samples folded by concurrent completions since this
+			// listener took its snapshot belong to it and would otherwise be lost with the reset
+			current = *l.limiter.sample
 			if l.limiter.isWindowReady(current) {
 				l.limiter.sample = measurements.NewImmutableSampleWindow(
 					-1,
